@@ -133,11 +133,24 @@ type rig struct {
 	paused bool
 }
 
+// stateLockProber is implemented by *xmpp.Session in trees that have the
+// verif export VerifStateLocked; without it the harness falls back to bounded
+// waits in the stall probes.
+type stateLockProber interface{ VerifStateLocked() bool }
+
+func hasStateLockProbe(s *xmpp.Session) bool {
+	_, ok := interface{}(s).(stateLockProber)
+	return ok
+}
+
 func (r *rig) onWrite() {
 	if r.s == nil || !r.watch.Load() {
 		return
 	}
-	locked := r.s.VerifStateLocked()
+	locked := false
+	if p, ok := interface{}(r.s).(stateLockProber); ok {
+		locked = p.VerifStateLocked()
+	}
 	if locked {
 		r.wmu.Lock()
 		r.lockedWrites = append(r.lockedWrites, goid())
